@@ -361,13 +361,6 @@ def transition_oracles(st, op, info, hist):
             if np.asarray(p.PSDbounds, dtype=float).tobytes() != np.asarray(wantb, dtype=float).tobytes() \
                     or np.asarray(p.PSD, dtype=float).tobytes() != np.asarray(wantp, dtype=float).tobytes():
                 bad('recorded-time-row', 'state after setPSDtoRecordedTime differs from the recorded row %d' % info['row'], detail=op)
-        else:
-            (b2, p2) = info['rows']
-            if b2[0].tobytes() == b2[1].tobytes():
-                nz = int(np.count_nonzero(b2[1]))
-                want = 0.5 * (p2[0][:max(nz - 1, 0)] + p2[1][:max(nz - 1, 0)])
-                if nz and (len(p.PSD) != len(want) or not np.allclose(p.PSD, want, rtol=1e-12, atol=0)):
-                    bad('recorded-time-interpolation', 'half way between two rows on the same grid the PSD is not their mean', detail=op)
     if kind == 'load':
         if float(np.sum(p.PSD)) != float(info['ndata']):
             bad('load-count', 'loaded %d radii, PSD sums to %r' % (info['ndata'], float(np.sum(p.PSD))))
